@@ -724,6 +724,10 @@ dt_strpdt(const char *str, const char *fmt, char **ep)
 		goto sober;
 	case DT_UMMULQURA:
 		res.d = dt_strpd_special(sp, DT_UMMULQURA, &on);
+		if (res.d.typ != DT_UMMULQURA) {
+			/* not a date of that calendar */
+			goto fucked;
+		}
 		if (*(sp = on)) {
 			/* only accept dates for now */
 			goto fucked;
